@@ -604,6 +604,7 @@ func RuleKReval(c *core.Ctx) {
 	// or in a helper that dayStart calls for every position: its parameters stand
 	// for the arguments of that call
 	var helperCall *ssa.Call
+	var helperFn *ssa.Function
 	if lit == nil {
 		core.EachInstr(dayStart, func(ins ssa.Instruction) {
 			call, ok := ins.(*ssa.Call)
@@ -611,11 +612,17 @@ func RuleKReval(c *core.Ctx) {
 				return
 			}
 			callee := call.Call.StaticCallee()
+			if callee == nil {
+				callee = core.FuncValue(call.Call.Value)
+			}
+			if callee == nil {
+				callee = capturedFunc(call.Call.Value)
+			}
 			if callee == nil || callee.Blocks == nil || !p.InModule(callee) || core.PkgPathOf(callee) != pkgJournal {
 				return
 			}
 			if l := findLit(callee); l != nil {
-				lit, helperCall = l, call
+				lit, helperCall, helperFn = l, call, callee
 			}
 		})
 	}
@@ -624,7 +631,7 @@ func RuleKReval(c *core.Ctx) {
 		if helperCall == nil || v == nil {
 			return v
 		}
-		callee := helperCall.Call.StaticCallee()
+		callee := helperFn
 		if prm, ok := core.Strip(v).(*ssa.Parameter); ok && prm.Parent() == callee {
 			for i, q := range callee.Params {
 				if q == prm && i < len(helperCall.Call.Args) {
@@ -682,7 +689,7 @@ func RuleKReval(c *core.Ctx) {
 		if helperCall == nil {
 			return true
 		}
-		callee := helperCall.Call.StaticCallee()
+		callee := helperFn
 		for x := range originSet(p, v, depth) {
 			prm, ok := x.(*ssa.Parameter)
 			if !ok || prm.Parent() != callee {
@@ -741,6 +748,7 @@ func RuleKReval(c *core.Ctx) {
 			if delta != nil {
 				cur, prev := priceCell(p, delta.Call.Args[0]), priceCell(p, delta.Call.Args[1])
 				isQty := false
+				other = resolve(other)
 				for _, e := range it.elems {
 					if ex, ok := e.(*ssa.Extract); ok && ex.Index == 2 && originSet(p, other, 0)[ex] {
 						isQty = true
@@ -807,19 +815,29 @@ func RuleKReval(c *core.Ctx) {
 			continue
 		}
 		desc := revalSkipKind(p, iff.Cond, it)
-		// a test of the sign of one decimal (the quantity, the price difference):
-		// decided on the sign domain — the position may be skipped only when that
-		// decimal is zero
-		if skipNeg, skipPos, ok := signSkip(iff, it.header); ok {
-			switch {
-			case skipNeg && skipPos:
-				desc = "unreviewed sign test (skips negative and positive values)"
-			case skipNeg:
-				desc = "unreviewed sign test (skips negative values)"
-			case skipPos:
-				desc = "unreviewed sign test (skips positive values)"
-			default:
-				desc = "zero quantity or unchanged price"
+		// conditions over signs of decimals, commodity identity and IsAL — also
+		// combined in a boolean helper — are decided on their atoms: a position may
+		// be skipped only when a decimal is zero, never for one sign and not the other
+		if desc != "error test" {
+			ci := newCondInterp(p)
+			if tbl, ok := ci.table(iff.Cond, b); ok {
+				skipOnTrue := b.Succs[0] == it.header
+				skip := map[string]bool{}
+				for k, v := range tbl {
+					skip[k] = v == skipOnTrue
+				}
+				if why := ci.skipOnlyForZero(skip); why != "" {
+					desc = "unreviewed sign test (" + why + ")"
+				} else {
+					var kinds []string
+					for _, a := range ci.order {
+						kinds = append(kinds, ci.desc[a])
+					}
+					sort.Strings(kinds)
+					desc = "decided on its atoms: " + strings.Join(uniq(kinds), ", ")
+				}
+			} else if strings.HasPrefix(desc, "unreviewed") {
+				desc = "unreviewed (" + ci.unknown + ")"
 			}
 		}
 		k2 := fname + ":skip condition " + desc
@@ -828,6 +846,56 @@ func RuleKReval(c *core.Ctx) {
 		} else {
 			allowed++
 			c.Ob(rule, k2, core.NearPos(iff), fname, core.Discharged, "reviewed skip condition")
+		}
+	}
+	// … and in the helper that builds the adjustment for one position: a branch
+	// that returns nothing (nil, nil) skips the position
+	if helperFn != nil {
+		nothing := func(b *ssa.BasicBlock) bool {
+			ret, ok := b.Instrs[len(b.Instrs)-1].(*ssa.Return)
+			if !ok || len(b.Instrs) > 2 {
+				return false
+			}
+			for _, rv := range ret.Results {
+				if !core.IsNilConst(rv) {
+					return false
+				}
+			}
+			return len(ret.Results) > 0
+		}
+		for _, b := range helperFn.Blocks {
+			iff, ok := b.Instrs[len(b.Instrs)-1].(*ssa.If)
+			if !ok || !(nothing(b.Succs[0]) || nothing(b.Succs[1])) {
+				continue
+			}
+			ci := newCondInterp(p)
+			desc := ""
+			if tbl, ok := ci.table(iff.Cond, b); ok {
+				skipOnTrue := nothing(b.Succs[0])
+				skip := map[string]bool{}
+				for k, v := range tbl {
+					skip[k] = v == skipOnTrue
+				}
+				if why := ci.skipOnlyForZero(skip); why != "" {
+					desc = "unreviewed sign test (" + why + ")"
+				} else {
+					var kinds []string
+					for _, a := range ci.order {
+						kinds = append(kinds, ci.desc[a])
+					}
+					sort.Strings(kinds)
+					desc = "decided on its atoms: " + strings.Join(uniq(kinds), ", ")
+				}
+			} else {
+				desc = "unreviewed (" + ci.unknown + ")"
+			}
+			k2 := fname + ":skip condition " + desc
+			if strings.HasPrefix(desc, "unreviewed") {
+				c.Ob(rule, k2, core.NearPos(iff), fname, core.Violated, "a position is skipped by the daily revaluation for a reason outside the reviewed set: "+describeValue(p, iff.Cond)+" — that position is never marked to market")
+			} else {
+				allowed++
+				c.Ob(rule, k2, core.NearPos(iff), fname, core.Discharged, "reviewed skip condition")
+			}
 		}
 	}
 	// no writes to the positions inside the loop
